@@ -344,6 +344,9 @@ DEFAULT_CFG = {
     "ok_awaitable": False,       # async: a successful attempt returns an awaitable *object* (a handle)          # strategies are objects exposing record_success / record_failure
     "loop": False,               # async entry points run as Tasks on the virtual event loop
     "attempt_timeout": None,     # ticks: attempt_timeout_s (sync: owned executor; async: needs loop)
+    "warnings_error": False,     # the call runs under warnings.simplefilter("error")
+    "boundary_hook": None,       # "metric" | "log": that per-call hook is a C callable raising
+                                 # TypeError at the call boundary (wrong arity), recording nothing
     "real_executor": False,      # sync attempt timeout through whatever REAL threads / executors /
                                  # queues the library uses: an overrunning attempt really blocks
                                  # (released by events, never by wall time) and completes late
@@ -1090,7 +1093,17 @@ class World:
             exc = OpError(f"op{n}:{rest}")
             exc.spec = (rest, None)
             exc.code = "ECONNRESET"
+            self._last_op_exc = exc
+            self.trace.append(("stringcode", n))
             self._rec_op(("op", n, "x:" + rest, t0, t1, self.reg(exc)))
+            _raise_here(exc)
+        if label == "same" and self._last_op_exc is not None:
+            # the very same exception instance again, untouched (a cached failure that already
+            # went through another policy)
+            exc = self._last_op_exc
+            if getattr(exc, "code", None) == "ECONNRESET" and not hasattr(exc, "status"):
+                self.trace.append(("stringcode", n))
+            self._rec_op(("op", n, "x:" + exc.spec[0], t0, t1, self.ident(exc)))
             _raise_here(exc)
         if kind == "xR":
             exc = OpRuntimeError(f"op{n}:{rest}")
@@ -1324,6 +1337,11 @@ class World:
             kw["on_metric"] = self._as_hook(self.on_metric)
         if cfg["log"]:
             kw["on_log"] = self._as_hook(self.on_log)
+        if cfg["boundary_hook"]:
+            # a hook that cannot be called with the documented signature, implemented in C: the
+            # TypeError comes from the call boundary, there is no frame of the hook's own
+            import functools
+            kw["on_" + cfg["boundary_hook"]] = functools.partial(int, "x", 10)
         if cfg["operation"]:
             kw["operation"] = cfg["operation"]
         if cfg["abort"]:
@@ -1498,6 +1516,16 @@ class World:
     # -- running a call -------------------------------------------------------------------
     def call(self, entry):
         """Run one call through ``entry`` (e.g. "Retry.call", "AsyncPolicy.execute", "deco")."""
+        if self.cfg["warnings_error"]:
+            # the process runs with warnings turned into errors (python -W error, pytest's
+            # filterwarnings = error): part of the environment, owned for the duration of the call
+            import warnings
+            with warnings.catch_warnings():
+                warnings.simplefilter("error")
+                return self._call(entry)
+        return self._call(entry)
+
+    def _call(self, entry):
         self.ncalls += 1
         self.op_n = 0
         if not self._nesting:
